@@ -33,7 +33,7 @@ def run(rep, tier, seed):
         rep.negative_cfgs.append(f"{cfg} ({what})")
     rng = random.Random(seed + 7)
     events, recipes = [], {}
-    for s in range(1800 if tier == "quick" else 60000):
+    for s in range(4500 if tier == "quick" else 60000):
         doc = hostile_document(rng)
         n = rng.choice([1, 1, 2, 2, 3])
         rrs = [ruledrv.rule_recipe(rng, doc, well_typed=True, cast_p=0.4, maxlen=3) for _ in range(n)]
